@@ -122,6 +122,15 @@ def main(nseeds):
         hs = [ref[k] for k in g]
         if len(set(hs)) != len(hs):
             return dict(violation=True, cases=cases, what="values %r do not all get different digests" % (g,), witness=list(g), known=known)
+    # K14 (recorded finding): in the fallback for unorderable elements / keys a container is hashed through the digests of its members,
+    # and so collides with the container OF those digests
+    probe = ("import joblib, json\n"
+             "a = joblib.hash({1, 'a'}) == joblib.hash({joblib.hash(1), joblib.hash('a')})\n"
+             "b = joblib.hash({1: 'x', 'a': 'y'}) == joblib.hash({joblib.hash(1): 'x', joblib.hash('a'): 'y'})\n"
+             "print(json.dumps([a, b]))\n")
+    pr = subprocess.run([sys.executable, "-c", probe], capture_output=True, text=True, timeout=120)
+    coll = json.loads(pr.stdout.strip().splitlines()[-1]) if pr.returncode == 0 else [False, False]
+    known["K14"] = ("hash({1, 'a'}) == hash({hash(1), hash('a')}): %r; same for dict keys: %r" % tuple(coll)) if any(coll) else False
     cases, bad = history(cases)
     if bad:
         bad["known"] = known
